@@ -9,13 +9,13 @@ import histgen
 import vlib
 
 
-def run_histories(chk, histories, relevant, label="exp", flavor="plain", sample=True):
+def run_histories(chk, histories, relevant, label="exp", flavor="plain", sample=True, defs=()):
     work = vlib.scratch(label)
     hist = work / "histories.ndjson"
     with open(hist, "w") as f:
         for h in histories:
             f.write(json.dumps(h) + "\n")
-    exe = vlib.build_driver("exp_driver", flavor)
+    exe = vlib.build_driver("exp_driver", flavor, defs)
     nsh = min(vlib.NCPU, max(1, len(histories)))
     files = [work / f"exp.{i}.ndjson" for i in range(nsh)]
     cmds = [[exe, "run", hist, i, nsh, files[i]] for i in range(nsh)]
